@@ -40,7 +40,7 @@ INV = 'self._lock.locked() == (self._worker_pool is not None)'
 
 def register(R):
   R.cls('WorkerRegistry', dict(data='map[obj,rreal?]', _lock='lock'))
-  R.cls('Worker', dict(_lock='lock', _states_lock='rlock', _worker_pool='obj?', address='obj'))
+  R.cls('Worker', dict(_lock='lock', _states_lock='rlock', _worker_pool='obj?', address='obj', g_capacity='bool', g_alive='bool'))
   R.cls('WorkerPool', dict(), lazy=())
 
   @R.spec
@@ -158,9 +158,11 @@ def register(R):
 
   # liveness / capacity of a client: ASSUMED contracts (they query the transport), pure w.r.t. ownership
   R.add(Contract(f'{CU}::CourierClient.has_capacity', 'trusted', types=dict(self='Worker'), ret='bool',
-                 note='ASSUMED: does not touch ownership state'))
+                 ensures=['result == self.g_capacity'],
+                 note='ASSUMED: does not touch ownership state; stable during one call of next_idle_worker (ghost g_capacity)'))
   R.add(Contract(f'{CU}::CourierClient.is_alive', 'trusted', types=dict(self='Worker'), ret='bool',
-                 note='ASSUMED: does not touch ownership state'))
+                 ensures=['result == self.g_alive'],
+                 note='ASSUMED: does not touch ownership state; stable during one call of next_idle_worker (ghost g_alive)'))
   WINV = ['w0._lock.locked() == (w0._worker_pool is not None)', 'w1._lock.locked() == (w1._worker_pool is not None)']
   for acquire in (True, False):
     R.add(Contract(
@@ -177,7 +179,16 @@ def register(R):
             # nobody else's worker is ever taken over
             'implies(old(w0._worker_pool) is not None and old(w0._worker_pool) is not self, w0._worker_pool is old(w0._worker_pool))',
             'implies(old(w1._worker_pool) is not None and old(w1._worker_pool) is not self, w1._worker_pool is old(w1._worker_pool))',
-        ] + ([] if acquire else ['w0._worker_pool is old(w0._worker_pool) and w1._worker_pool is old(w1._worker_pool)']),
+            # only a usable worker is handed out
+            'implies(result is w0, w0.g_capacity and w0.g_alive)', 'implies(result is w1, w1.g_capacity and w1.g_alive)',
+            # completeness: a usable worker this pool already owns is always found
+            'implies(result is None, not (old(w0._worker_pool) is self and w0.g_capacity and w0.g_alive))',
+            'implies(result is None, not (old(w1._worker_pool) is self and w1.g_capacity and w1.g_alive))',
+        ] + ([
+            # ... and with maybe_acquire also a usable worker nobody owns
+            'implies(result is None, not (old(w0._worker_pool) is None and w0.g_capacity and w0.g_alive))',
+            'implies(result is None, not (old(w1._worker_pool) is None and w1.g_capacity and w1.g_alive))',
+        ] if acquire else ['w0._worker_pool is old(w0._worker_pool) and w1._worker_pool is old(w1._worker_pool)']),
         bounded='bounded_release',
         note='bounded: pool of exactly two workers (loops unrolled), ownership/liveness/capacity symbolic'))
 
